@@ -5,6 +5,8 @@ use crate::report::{Ctx, Report};
 
 pub mod c01;
 pub mod c02;
+pub mod c03;
+pub mod c04;
 pub mod c05;
 pub mod c06;
 pub mod c07;
@@ -13,14 +15,17 @@ pub mod c09;
 pub mod c10;
 pub mod c12;
 pub mod c13;
+pub mod c14;
 pub mod c16;
 pub mod c17;
+pub mod c18;
 pub mod c19;
 pub mod c20;
 pub mod c21;
 pub mod c23;
 pub mod c25;
 pub mod c28;
+pub mod c29;
 pub mod c30;
 pub mod c31;
 pub mod c32;
@@ -31,6 +36,8 @@ pub fn registry() -> Vec<(&'static str, MonFn)> {
     vec![
         ("c01", c01::run as MonFn),
         ("c02", c02::run as MonFn),
+        ("c03", c03::run as MonFn),
+        ("c04", c04::run as MonFn),
         ("c05", c05::run as MonFn),
         ("c06", c06::run as MonFn),
         ("c07", c07::run as MonFn),
@@ -40,15 +47,18 @@ pub fn registry() -> Vec<(&'static str, MonFn)> {
         ("c12", c12::run as MonFn),
         ("c13", c13::run as MonFn),
         ("c17", c17::run as MonFn),
+        ("c18", c18::run as MonFn),
         ("c19", c19::run as MonFn),
         ("c20", c20::run as MonFn),
         ("c21", c21::run as MonFn),
         ("c23", c23::run as MonFn),
         ("c25", c25::run as MonFn),
         ("c28", c28::run as MonFn),
+        ("c29", c29::run as MonFn),
         ("c30", c30::run as MonFn),
         ("c31", c31::run as MonFn),
         ("c32", c32::run as MonFn),
+        ("c14", c14::run as MonFn),
         ("c16k", c16::run_k as MonFn),
         ("c16d", c16::run_d as MonFn),
     ]
